@@ -221,6 +221,43 @@ def run_impl(binp, cases, extra_args=(), timeout_per_batch=None):
     return results
 
 
+def run_miri(cases, features=(), extra_args=(), timeout=1500):
+    """run a (small) batch of cases through the harness under Miri (nightly); returns
+    (per-case output or None, problem or None).  A search aid for undefined behaviour in the real
+    code (use of a dead element, aliasing, reads of uninitialised slots) — it decides nothing else."""
+    lines = [l for c in cases for l in c]
+    env = dict(os.environ, MIRIFLAGS="-Zmiri-disable-isolation", RUSTFLAGS="--cfg circular_buffer_verif",
+               CARGO_TARGET_DIR=os.path.join(WORK, "miri-target" + ("" if REPO == "/repo" else "-alt")),
+               CARGO_NET_OFFLINE="true")
+    cmd = ["cargo", "+nightly", "miri", "run", "--offline", "--quiet"]
+    if features:
+        cmd += ["--features", ",".join(features)]
+    cmd += ["--"] + list(extra_args) if extra_args else []
+    try:
+        p = subprocess.run(cmd, cwd=HARNESS_DIR, env=env, input="\n".join(lines) + "\n", capture_output=True,
+                           text=True, timeout=timeout)
+        out, err, rc = p.stdout, p.stderr, p.returncode
+    except subprocess.TimeoutExpired as e:
+        out = e.stdout.decode() if isinstance(e.stdout, bytes) else (e.stdout or "")
+        err, rc = "timeout", -1
+    outl = out.split("\n")
+    if outl and outl[-1] == "":
+        outl.pop()
+    res, pos, bad = [], 0, None
+    for i, c in enumerate(cases):
+        if pos + len(c) <= len(outl):
+            res.append(outl[pos:pos + len(c)]); pos += len(c)
+        else:
+            res.append(None)
+            if bad is None:
+                bad = i
+    problem = None
+    if rc != 0 and err != "timeout":
+        m = re.search(r"error: (Undefined Behavior|unsupported operation|memory leaked)[^\n]*", err)
+        problem = dict(case=bad, what=(m.group(0) if m else "miri exited with status %d" % rc), stderr=err[-1500:])
+    return res, problem
+
+
 def run_model_src(cases, timeout_per_batch=None):
     """the same driver with the element-level core taken from the *translated* source"""
     res = run_impl(DRIVER_SRC, cases, timeout_per_batch=timeout_per_batch)
